@@ -14,7 +14,7 @@ Correspondence streams (real code vs Lean model, every case):
 plus a token-string stream (kind "tokens"): Python's parser vs PyParse.parse on mutated printed texts.
 
 Oracle (from the property statement, real code only): parse_y0(str(e)) succeeds and returns an Expression; it has the
-same exact-rational value as e on random positive distributions (harness/oracles/expr_eval.py); when every division
+same exact-rational value as e on random positive distributions (harness/oracles/print_eval.py); when every division
 of e has division-free non-constant operands and is not a factor of a product: p == e and str(p) == str(e).
 """
 from __future__ import annotations
@@ -346,7 +346,7 @@ def run_python(case):
     from y0.dsl import CounterfactualVariable, Expression, Fraction, One, PopulationProbability, Probability, Product, QFactor, Sum, Zero
     from y0.parser import parse_y0
 
-    from ..oracles import expr_eval as EV
+    from ..oracles import print_eval as EV
 
     if case["kind"] == "tokens":
         return _run_tokens(case)
